@@ -180,6 +180,26 @@ FOURTH_PASS = {
 for _k, _v in FOURTH_PASS.items():
     CLAIMED[_k]["text"] += _v
 
+FIFTH_PASS = {
+ "C01": " Fifth pass: rows.Scan targets stand at the position of the selected column of the same name; self-comparison also through single-assignment locals.",
+ "C02": " Fifth pass: in indexDiffT every match is marked, compared with indexChange and claimed once (D43/D44 known findings); every differ function with a pair of same-typed parameters consults both.",
+ "C03": " Fifth pass: quote trimming in the SQLite inspector operates on a blank-trimmed operand; Scan order follows the SELECT list; no Go-quoted run-time string is written as HCL expression text (found D45, D48).",
+ "C04": " Fifth pass: SameTable/SameSchema compare names exactly.",
+ "C05": " Fifth pass: no path from the error edge of ExecContext in an ApplyChanges loop to the next iteration.",
+ "C06": " Fifth pass: a cmdapi function that keeps the result of migrate.Validate returns nil only where it is known nil (import is the listed tolerant consumer); HashFile.Sum delimits its fields and UnmarshalText takes entries as written (D46/D47 known findings).",
+ "C07": " Fifth pass: FileStmtDecls hands a file to the driver scanner only where it was established to be a *LocalFile.",
+ "C08": " Fifth pass: every look-behind read s.input[s.pos-K], K>=2, stands under conditions establishing s.pos >= K.",
+ "C09": " Fifth pass: the EntRevisions readers report ErrRevisionNotExist only under ent.IsNotFound; a pragma line the goose/dbmate filter removes is recognised by the state switch; a state consumed by an `if state == V` block is consumed in the iteration that set it.",
+ "C10": " Fifth pass: the EntRevisions readers report ErrRevisionNotExist only under ent.IsNotFound.",
+ "C11": " Fifth pass: every use of directiveCheckpoint goes through AddDirective or LocalFile.Directive; the exec_order enum maps one-to-one onto the flag values the option switch handles (expression evaluated on the enum constants); LocalFile.comments recognises the scanner's line-comment openers.",
+ "C12": " Fifth pass: Executor.dir restored on every path (also under C12); the bytes written into the statement hash are the statement text itself.",
+ "C13": " Fifth pass: LocalFile.comments recognises every line-comment opener the scanner skips (file directives live there).",
+ "C14": " Fifth pass: an Executor built with NopRevisionReadWriter is used through Replay only; the PostgreSQL restore closures apply a computed diff only through withCascade.",
+ "C15": " Fifth pass: no Go-quoted run-time string as HCL expression text (found D45, D48); a store into RefColumns/Columns of one foreign key reads the same-named field of the other; a postgres function that recognises an array type by name keeps an ArrayType.",
+}
+for _k, _v in FIFTH_PASS.items():
+    CLAIMED[_k]["text"] += _v
+
 NA = {}
 
 def main():
